@@ -8,6 +8,17 @@ PY = '/venv/bin/python'
 
 # property -> (category, level text, level note, technique, design ref)
 CLAIMED = {
+    'C06': ('other',
+            'Repository-specific static rules over the VMF writers and readers: per-pair agreement of the literal keys and block names emitted vs '
+            'consumed (KV-text effect extraction with parameter/loop-table resolution; Output as a positional record), escape_text on every quoted '
+            'slot whose expression is statically str-typed (small type resolver over field annotations and loop sources), significant-digit '
+            'formatting only on the fields the property allows, displacement row lengths written vs demanded as linear forms in S=2**power+1, '
+            'id plumbing from file to constructors, and world brushes exported with their group keys. Each is a necessary condition: breaking it '
+            'loses or corrupts a field on every round trip. Equality of the re-parsed object graph and the second-export fixed point are not claimed.',
+            'Trusted: CPython ast, engine/kvtext.py lexer/resolver, the type resolver in rules/c06.py (fails closed on untypable slots). Assumes C01/C02 '
+            'for the text layer.',
+            'static: reader/writer key-set agreement + typed escape discipline + format-class and row-shape rules',
+            'DESIGN.md section 3, C06'),
     'C09': ('other',
             'Repository-specific ownership analysis of every copy method (Entity, Solid, Side incl. the DispVertex it rebuilds, Output, VisGroup, '
             'EntityGroup, Camera, Cordon, UVAxis, Keyvalues, EntityFixup): the constructor call of the copy is mapped parameter-by-parameter onto '
